@@ -208,6 +208,9 @@ func CombinationIndex(comb []int, n, k int) int {
 	}
 	contains := make(map[int]struct{}, k)
 	for _, v := range comb {
+		if v < 0 || v >= n {
+			panic("combin: comb element out of range")
+		}
 		contains[v] = struct{}{}
 	}
 	if len(contains) != k {
@@ -411,7 +414,7 @@ func SubFor(sub []int, idx int, dims []int) []int {
 		idx -= v * stride
 		stride /= dims[i+1]
 	}
-	if idx > dims[len(sub)-1] {
+	if idx >= dims[len(sub)-1] {
 		panic("combin: index too large")
 	}
 	sub[len(sub)-1] = idx
